@@ -22,7 +22,9 @@ RULE = (
     "dispatcher (memoised, bounded by OPT) for a leaf with makespan == OPT: "
     "found = property holds for this instance (complete decision, since the "
     "filtered tree is a subtree of the full one), tree exhausted without one = "
-    "violation; the same search is run with the default filter of the RL "
+    "violation; the search uses either a fresh dispatcher per node or ONE "
+    "dispatcher that is reset and replayed for every node (how tree searches "
+    "and RL loops use it); the same search is run with the default filter of the RL "
     "environments when that is not the dominated-operations filter itself. A "
     "template family and four fixed instances whose optimum no non-delay "
     "schedule attains are mixed in. Non-trivial: the filter removed an operation in at least one "
@@ -135,9 +137,10 @@ def strategy(tier):
         max_machines=3,
         max_total=11 if big else 9,
         zero_ok=False,
+        big_ok=True,
     )
     inst = gen.weighted((3, _instances(11 if big else 9)), (1, general), (1, _delay_template()))
-    return inst.map(lambda i: {"inst": i})
+    return st.fixed_dictionaries({"inst": inst, "reuse": st.booleans()})
 
 
 def _nondelay_best(inst, bound):
@@ -197,7 +200,7 @@ def default_env_filters(instance):
     ]
 
 
-def search(ctx, inst, instance, opt, filt, stats):
+def search(ctx, inst, instance, opt, filt, stats, reuse=False):
     """True iff some history over Dispatcher(instance, filt)
     .available_operations() reaches makespan == opt."""
     n_jobs = len(inst["durations"])
@@ -205,9 +208,16 @@ def search(ctx, inst, instance, opt, filt, stats):
         [sum(row[p:]) for p in range(len(row) + 1)] for row in inst["durations"]
     ]
     seen = set()
+    shared = Dispatcher(instance, filt) if reuse else None
 
     def rec(prefix):
-        d = Dispatcher(instance, filt)
+        if reuse:
+            # the way a tree search or an RL loop uses the library: one
+            # dispatcher, reset and replayed for every node
+            d = shared
+            d.reset()
+        else:
+            d = Dispatcher(instance, filt)
         m = ref(inst)
         for j, x in prefix:
             d.dispatch(instance.jobs[j][m.next[j]], x)
@@ -239,10 +249,15 @@ def search(ctx, inst, instance, opt, filt, stats):
             for x in inst["machines"][j][p]:
                 children.append((m.start(j, x) + inst["durations"][j][p], j, x))
         children.sort()
+        hit = False
         for _e, j, x in children:
             if rec(prefix + [(j, x)]):
-                return True
-        return False
+                hit = True
+                if not reuse:
+                    return True  # complete decision for this instance
+        # with a reused dispatcher the whole (bounded) tree is walked, so
+        # that state carried over between histories can show
+        return hit
 
     return rec([])
 
@@ -252,7 +267,10 @@ def check_case(case, ctx):
     opt = opt_makespan(inst["durations"], inst["machines"])
     instance = build_instance(inst)
     stats = {"nodes": 0, "pruned_states": 0, "best": float("inf")}
-    found = search(ctx, inst, instance, opt, filter_dominated_operations, stats)
+    reuse = bool(case.get("reuse"))
+    found = search(ctx, inst, instance, opt, filter_dominated_operations, stats, reuse)
+    if reuse:
+        ctx.label("reused_dispatcher")
     ctx.check(
         stats["best"] >= opt,
         "model-opt-wrong",
